@@ -169,8 +169,12 @@ NSize(ins) == Len(Info(ins.t).ops)
 GenState0(g) ==
   [g |-> g, pm |-> [c \in 1..MapSize |-> {}], regs |-> [i \in 1..8 |-> [lat |-> 0, grp |-> NOPT, par |-> M1]],
    buf |-> -1, cur |-> NullInstr, mopIdx |-> 0, bufIdx |-> 0, cycle |-> 0, dep |-> 0, retire |-> 0, sat |-> FALSE,
-   prog |-> <<>>, mul |-> 0, dc |-> 0, throw |-> 0, phase |-> "fetch", macroOps |-> 0]
+   prog |-> <<>>, mul |-> 0, dc |-> 0, throw |-> 0, phase |-> "fetch", macroOps |-> 0,
+   stat |-> <<0, 0, 0, 0, 0, 0>>]   \* path statistics (ghost): throw-aways, aborted buffers, look-ahead cycles, port saturations, max consecutive throw-aways,
+                                     \* throw-aways for lack of a destination after the source search had already stalled
 
+StatAdd(st, i, n) == [st EXCEPT ![i] = st[i] + n]
+StatMax(st, i, n) == [st EXCEPT ![i] = IF n > st[i] THEN n ELSE st[i]]
 \* fetchNext: choose the decoder group for decode cycle s.dc
 Fetch(s) ==
   IF ~(s.dc < Latency /\ ~s.sat /\ Len(s.prog) < MaxSize) THEN [s EXCEPT !.phase = "done"]
@@ -197,21 +201,25 @@ Slot(s) ==
               info == Info(cur0.t)
               mop == info.ops[mi + 1]
               sc0 == SchedMop(mop, s.pm, s.cycle, s.dep, FALSE)[1]
-          IN  IF sc0 < 0 THEN EndCycle([s EXCEPT !.g = g0, !.cur = cur0, !.mopIdx = mi, !.sat = TRUE])
+          IN  IF sc0 < 0 THEN EndCycle([s EXCEPT !.g = g0, !.cur = cur0, !.mopIdx = mi, !.sat = TRUE, !.stat = StatAdd(s.stat, 4, 1)])
               ELSE
               LET ls == IF mi = info.srcOp THEN LookSrc(cur0, sc0, s.regs, g0, 0) ELSE <<TRUE, cur0, g0, 0>>
               IN  IF ~ls[1]
                   THEN \* source not found within the look-ahead window: throw the instruction away (cycle stays advanced)
                        IF s.throw < MaxThrowAway
-                       THEN [s EXCEPT !.g = ls[3], !.cur = ls[2], !.cycle = s.cycle + ls[4], !.throw = s.throw + 1, !.mopIdx = NSize(cur0)]
-                       ELSE EndCycle([s EXCEPT !.g = ls[3], !.cur = NullInstr, !.cycle = s.cycle + ls[4], !.mopIdx = 0])
+                       THEN [s EXCEPT !.g = ls[3], !.cur = ls[2], !.cycle = s.cycle + ls[4], !.throw = s.throw + 1, !.mopIdx = NSize(cur0),
+                                      !.stat = StatMax(StatAdd(StatAdd(s.stat, 1, 1), 3, ls[4]), 5, s.throw + 1)]
+                       ELSE EndCycle([s EXCEPT !.g = ls[3], !.cur = NullInstr, !.cycle = s.cycle + ls[4], !.mopIdx = 0,
+                                               !.stat = StatAdd(StatAdd(s.stat, 2, 1), 3, ls[4])])
                   ELSE
                   LET sc1 == sc0 + ls[4]   cyc1 == s.cycle + ls[4]
                       ld == IF mi = info.dstOp THEN LookDst(ls[2], sc1, s.throw > 0, s.regs, ls[3], 0) ELSE <<TRUE, ls[2], ls[3], 0>>
                   IN  IF ~ld[1]
                       THEN IF s.throw < MaxThrowAway
-                           THEN [s EXCEPT !.g = ld[3], !.cur = ld[2], !.cycle = cyc1 + ld[4], !.throw = s.throw + 1, !.mopIdx = NSize(cur0)]
-                           ELSE EndCycle([s EXCEPT !.g = ld[3], !.cur = NullInstr, !.cycle = cyc1 + ld[4], !.mopIdx = 0])
+                           THEN [s EXCEPT !.g = ld[3], !.cur = ld[2], !.cycle = cyc1 + ld[4], !.throw = s.throw + 1, !.mopIdx = NSize(cur0),
+                                          !.stat = StatAdd(StatMax(StatAdd(StatAdd(s.stat, 1, 1), 3, ls[4] + ld[4]), 5, s.throw + 1), 6, IF ls[4] > 0 THEN 1 ELSE 0)]
+                           ELSE EndCycle([s EXCEPT !.g = ld[3], !.cur = NullInstr, !.cycle = cyc1 + ld[4], !.mopIdx = 0,
+                                                   !.stat = StatAdd(StatAdd(s.stat, 2, 1), 3, ls[4] + ld[4])])
                       ELSE
                       LET sc2 == sc1 + ld[4]
                           cur2 == ld[2]
@@ -227,6 +235,7 @@ Slot(s) ==
                           IN  [s EXCEPT !.g = ld[3], !.cur = cur2, !.pm = cm[2], !.regs = regs2, !.dep = dep2,
                                         !.retire = IF isRes THEN dep2 ELSE s.retire,
                                         !.throw = 0, !.bufIdx = s.bufIdx + 1, !.mopIdx = mi2, !.macroOps = s.macroOps + 1,
+                                        !.stat = StatAdd(s.stat, 3, ls[4] + ld[4]),
                                         !.sat = s.sat \/ sc3 >= Latency,
                                         !.cycle = topCycle,
                                         !.prog = IF finished THEN Append(s.prog, ToInstr(cur2)) ELSE s.prog,
@@ -246,14 +255,15 @@ AddrReg(prog) == LET lat == AsicLat(prog)
 \* generate one program from generator state g: <<program, gen'>>   (bounded number of machine steps)
 GenBound == 4 * Latency + 600
 Generate(g) == LET s == FoldLeft(LAMBDA st, k : IF st.phase = "done" THEN st ELSE GenStep(st), GenState0(g), Range0(GenBound))
-               IN  <<s.prog, s.g, s.phase = "done">>
+               IN  <<s.prog, s.g, s.phase = "done", s.stat>>
 \* n programs from a scripted block stream; also reports how many blocks were consumed
 ProgramsScripted(blocks, n) ==
-  LET r == FoldLeft(LAMBDA acc, i : LET p == Generate(acc[2]) IN <<Append(acc[1], p[1]), p[2]>>, << <<>>, GenScript(blocks) >>, Range0(n))
-  IN  <<r[1], Len(blocks) - Len(r[2].rest)>>
+  LET r == FoldLeft(LAMBDA acc, i : LET p == Generate(acc[2]) IN <<Append(acc[1], p[1]), p[2], Append(acc[3], p[4])>>, << <<>>, GenScript(blocks), <<>> >>, Range0(n))
+  IN  <<r[1], Len(blocks) - Len(r[2].rest), r[3]>>
 \* the eight programs of a key
-Programs(key) == FoldLeft(LAMBDA acc, i : LET p == Generate(acc[2]) IN <<Append(acc[1], p[1]), p[2]>>,
-                          << <<>>, GenInit(key, 0) >>, Range0(8))[1]
+ProgramsStat(key) == FoldLeft(LAMBDA acc, i : LET p == Generate(acc[2]) IN <<Append(acc[1], p[1]), p[2], Append(acc[3], p[4])>>,
+                          << <<>>, GenInit(key, 0), <<>> >>, Range0(8))
+Programs(key) == ProgramsStat(key)[1]
 
 \* ---- well-formedness (Table 6.1.1) ------------------------------------------------------------------
 WellFormedInstr(ins) ==
@@ -290,6 +300,18 @@ ItemAdds == << <<41468, 23029, 38794, 33034>>,
                <<11640, 27878, 22132, 12074>>,
                <<58702, 46636, 15351, 33925>> >>
 \* item number as a word from two 16-bit halves (item < 2^32)
+\* addrs[i] = address register of program i (AddrReg of the program when it comes from the generator)
+ItemA(progs, addrs, line, itemLo, itemHi) ==
+  LET n == <<itemLo, itemHi, 0, 0>>
+      r0 == WMul(WAdd(n, W1), Mul0)
+      regs0 == <<r0>> \o [i \in 1..7 |-> WXor(r0, ItemAdds[i])]
+      step(acc, i) ==
+        LET idx == acc[2][1] + 65536 * (acc[2][2] % 64)                 \* register value mod 2^22 cache lines
+            mix == line[idx]
+            r1 == ExecProgram(acc[1], progs[i + 1])
+            r2 == [k \in 1..8 |-> WXor(r1[k], mix[k])]
+        IN  <<r2, r2[addrs[i + 1] + 1]>>
+  IN  FoldLeft(step, <<regs0, n>>, Range0(8))[1]
 Item(progs, line, itemLo, itemHi) ==
   LET n == <<itemLo, itemHi, 0, 0>>
       r0 == WMul(WAdd(n, W1), Mul0)
